@@ -1,8 +1,206 @@
-(* Property C10 — statements only (work in progress). *)
-From Coq Require Import ZArith Bool.
-From FpyV Require Import Num.RealFloat Lang.Lowering.Lower Lang.Lowering.LowerProofs.
+(* Property C10 — rounding-lowering rewrites leave the rounding function unchanged.
+   Statements only.  Model: Lang/Lowering/Lower.v (`sem p x` is the value the
+   lowered program p returns on the operand x; `vround c x` is Context.round of
+   the proved context model Num/Ctx.v; `vequiv` is equality of results up to
+   the encoding of a value: same class, same sign (zeros too), same real, same
+   exception; the sign of a NaN is not compared).  `fixes` selects the code as
+   found (fx_asis) or with the three missing refusals (fx_all). *)
+From Coq Require Import ZArith List Bool Reals.
+From Flocq Require Import Core.Zaux Core.Raux Core.Defs Core.Generic_fmt Core.FLX Core.FLT Core.FIX.
+From FpyV Require Import Num.RealFloat Num.RealFloatProofs Num.RoundSpec Num.RoundProofs Num.Float Num.FloatProofs
+  Num.CtxDef Num.Ctx Num.CtxProofs
+  Lang.Lowering.Lower Lang.Lowering.LowerProofs Lang.Lowering.LowerUOProofs Lang.Lowering.LowerF2FProofs
+  Lang.Lowering.LowerChainProofs Lang.Lowering.LowerWitnessProofs.
+Import ListNotations.
 Open Scope Z_scope.
 
-Theorem C10_shift_roundtrip : forall x k, rf_shift (rf_shift x k) (- k) = x.
-Proof. exact rf_shift_shift. Qed.
-Print Assumptions C10_shift_roundtrip.
+(* ---------------------------------------------------------------- unfold_special *)
+(* for every context but REAL and every shedding decision `_describe` may take:
+   the ladder assigns what the context returns on NaN / +-inf / +-0 and the
+   surviving context agrees with it on every other operand (exact equality) *)
+Theorem C10_unfold_special_eq : forall c sn si x,
+  c <> CReal -> us_shed_ok c sn si = true -> sem (us_lp c sn si) x = vround c x.
+Proof. exact unfold_special_eq. Qed.
+Print Assumptions C10_unfold_special_eq.
+
+(* ---------------------------------------------------------------- unfold_overflow *)
+Theorem C10_unfold_overflow_eq : forall fx early c s x,
+  uo_describe fx early c = Some s ->
+  (fx_wrap fx = true \/ ctx_wraps c = false) ->
+  uo_ctx_ok c -> (early = true -> uo_early_ok c s) ->
+  fl_wf x ->
+  vequiv (sem (uo_lp early s) x) (vround c x).
+Proof. exact unfold_overflow_eq. Qed.
+Print Assumptions C10_unfold_overflow_eq.
+
+(* x >= infval -> overflow, x <= -infval -> overflow, for every mode (monotonicity of Flocq's round) *)
+Theorem C10_early_check_sound : forall c U maxv negv p n rm ovr zU zC infv ninfv xr,
+  bounded_as c U maxv negv p n rm ovr zU zC ->
+  bounds_ok p n maxv negv -> early_ok p n maxv negv infv ninfv ->
+  rf_wf xr ->
+  (fl_ge (FFin xr) infv = true -> vround c (FFin xr) = ovr false) /\
+  (fl_le (FFin xr) ninfv = true -> vround c (FFin xr) = ovr true).
+Proof. exact early_check_sound. Qed.
+Print Assumptions C10_early_check_sound.
+
+(* the code as found does not always refuse a wrapping format ... *)
+Theorem C10_unfold_overflow_wrap_refuted :
+  exists p x, uo_leaf fx_asis false wrap_witness = Some p /\ fl_wf x /\
+              ~ vequiv (sem p x) (vround wrap_witness x).
+Proof. exact unfold_overflow_wrap_refuted. Qed.
+Print Assumptions C10_unfold_overflow_wrap_refuted.
+
+Theorem C10_unfold_overflow_wrap_declined : forall early c, ctx_wraps c = true -> uo_leaf fx_all early c = None.
+Proof. exact unfold_overflow_wrap_declined. Qed.
+Print Assumptions C10_unfold_overflow_wrap_declined.
+
+(* ---------------------------------------------------------------- unfold_neg_zero *)
+Theorem C10_unfold_neg_zero_eq : forall fx c p x,
+  fl_wf x -> unz_leaf fx c = Some p ->
+  (fx_zero_bound fx = true \/ unz_zero_bound c = false) ->
+  sem p x = vround c x.
+Proof. exact unfold_neg_zero_eq. Qed.
+Print Assumptions C10_unfold_neg_zero_eq.
+
+(* ... nor a bound that is a zero of the other sign *)
+Theorem C10_unfold_neg_zero_zero_bound_refuted :
+  exists p x, unz_leaf fx_asis zero_bound_witness = Some p /\ fl_wf x /\
+              ~ vequiv (sem p x) (vround zero_bound_witness x).
+Proof. exact unfold_neg_zero_zero_bound_refuted. Qed.
+Print Assumptions C10_unfold_neg_zero_zero_bound_refuted.
+
+(* ---------------------------------------------------------------- float_to_fixed *)
+(* a float rounding is a fixed-point rounding at n(x) = max(nmin, e(x) - p): same real, sign, inexact flag *)
+Theorem C10_float_to_fixed_eq : forall x p nmin rm,
+  rf_wf x -> rc x <> 0 -> 1 <= p ->
+  exists y f y' f',
+    rf_round x (Some p) (Some nmin) rm false = Ok (y, f) /\
+    rf_round x None (Some (Z.max nmin (rf_e x - p))) rm false = Ok (y', f') /\
+    R2R y = R2R y' /\ rs y = rs x /\ rs y' = rs x /\ rf_wf y /\ rf_wf y' /\
+    f_inexact f = f_inexact f'.
+Proof. exact float_to_fixed_eq. Qed.
+Print Assumptions C10_float_to_fixed_eq.
+
+(* the position as the transform emits it (logb, subnormal branch e < emin, clamp EXP .. EMAX-P+1) *)
+Theorem C10_f2f_position_exact : forall p emin expmax e,
+  (e < emin -> (emin - p + 1) - 1 = Z.max (mps_nmin p emin) (e - p)) /\
+  (emin <= e -> e - p + 1 <= expmax ->
+     f2f_pos p (Some (emin, emin - p + 1)) (Some expmax) e - 1 = Z.max (mps_nmin p emin) (e - p)) /\
+  (expmax < e - p + 1 -> f2f_pos p (Some (emin, emin - p + 1)) (Some expmax) e = expmax).
+Proof. exact f2f_position_exact. Qed.
+Print Assumptions C10_f2f_position_exact.
+
+Theorem C10_float_to_fixed_ctx_eq : forall fx c s x,
+  f2f_describe fx c = Some s -> f2f_ctx_ok c ->
+  (fx_degenerate fx = true \/ f2f_nondegenerate c) ->
+  fl_wf x ->
+  vequiv (sem (f2f_lp s) x) (vround c x).
+Proof. exact float_to_fixed_ctx_eq. Qed.
+Print Assumptions C10_float_to_fixed_ctx_eq.
+
+(* the code as found lowers (or raises on) a format whose only finite value is zero *)
+Theorem C10_float_to_fixed_zero_only_refuted :
+  exists p x, f2f_leaf fx_asis zero_only_witness = Some p /\ fl_wf x /\
+              ~ vequiv (sem p x) (vround zero_only_witness x).
+Proof. exact float_to_fixed_zero_only_refuted. Qed.
+Print Assumptions C10_float_to_fixed_zero_only_refuted.
+
+(* ---------------------------------------------------------------- rescale_fixed *)
+Theorem C10_rescale_fixed_eq : forall c p x,
+  fl_wf x -> deterministic c = true -> rs_leaf c = Some p ->
+  vequiv (sem p x) (vround c x).
+Proof. exact rescale_fixed_eq. Qed.
+Print Assumptions C10_rescale_fixed_eq.
+
+(* the shape of fixed-point rounding commutes with the shift *)
+Theorem C10_fix_round_shift : forall rm x n j,
+  StochProofs.fix_round_val rm (rf_shift x j) (n + j) = rf_shift (StochProofs.fix_round_val rm x n) j.
+Proof. exact fix_round_val_shift. Qed.
+Print Assumptions C10_fix_round_shift.
+
+(* ---------------------------------------------------------------- round_elim / round_insert *)
+Theorem C10_round_elim_sound : forall c x,
+  ctx_wf c -> deterministic c = true -> rf_wf x -> rc x <> 0 ->
+  match c with
+  | CMPBFloat _ _ pm nm _ _ _ _ | CMPBFixed _ pm nm _ _ _ _ _ => rs pm = false /\ (rs nm = true \/ rc nm = 0)
+  | _ => True
+  end ->
+  representable c x ->
+  vequiv (sem (LRound CReal) (FFin x)) (sem (LRound c) (FFin x)).
+Proof. exact round_elim_sound. Qed.
+Print Assumptions C10_round_elim_sound.
+
+Theorem C10_round_insert_sound : forall c x,
+  ctx_wf c -> deterministic c = true -> rf_wf x -> rc x <> 0 ->
+  match c with
+  | CMPBFloat _ _ pm nm _ _ _ _ | CMPBFixed _ pm nm _ _ _ _ _ => rs pm = false /\ (rs nm = true \/ rc nm = 0)
+  | _ => True
+  end ->
+  representable c x ->
+  vequiv (sem (LRound c) (FFin x)) (sem (LRound CReal) (FFin x)).
+Proof. exact round_insert_sound. Qed.
+Print Assumptions C10_round_insert_sound.
+
+(* ---------------------------------------------------------------- refusals *)
+Theorem C10_refusal_unchanged : forall fx t c,
+  leaf_of fx t c = None -> rw (leaf_of fx t) (LRound c) = LRound c.
+Proof. exact refusal_unchanged. Qed.
+Print Assumptions C10_refusal_unchanged.
+
+Theorem C10_refusal_complete : forall fx c,
+  (deterministic c = false ->
+     uo_leaf fx false c = None /\ uo_leaf fx true c = None /\ unz_leaf fx c = None /\ f2f_leaf fx c = None) /\
+  (c = CReal -> forall t, leaf_of fx t c = None) /\
+  (uo_parts c = None -> uo_leaf fx false c = None /\ uo_leaf fx true c = None) /\
+  (f2f_parts c = None -> f2f_leaf fx c = None) /\
+  (rs_parts c = None -> rs_leaf c = None) /\
+  (unz_dropped c = None -> unz_leaf fx c = None) /\
+  (ctx_wraps c = true -> unz_leaf fx c = None /\ (fx_wrap fx = true -> uo_leaf fx false c = None /\ uo_leaf fx true c = None)) /\
+  (forall sc c0 nv iv, rs_parts c = Some (sc, c0, nv, iv) -> finite_sub nv || finite_sub iv = true -> rs_leaf c = None).
+Proof. exact refusal_complete. Qed.
+Print Assumptions C10_refusal_complete.
+
+(* ---------------------------------------------------------------- chains *)
+(* one rewrite applied to every block of a lowered program *)
+Theorem C10_rewrite_sound : forall fx t p x,
+  lp_wf p -> lp_wf (rw (leaf_of fx t) p) -> lp_bounds_wf p -> lp_all (cond fx t) p -> fl_wf x ->
+  vequiv (sem (rw (leaf_of fx t) p) x) (sem p x).
+Proof. exact rewrite_sound. Qed.
+Print Assumptions C10_rewrite_sound.
+
+(* every chain of rewrites, hence every prefix of special -> overflow -> neg-zero -> float_to_fixed -> rescale.
+   Partial in one respect: `chain_ok` assumes, stage by stage, that the program the previous rewrite emitted is over
+   well-formed values and that its blocks meet the constructor invariants the next rewrite relies on (the
+   invariants are proved for the source contexts' rewrites one by one, not re-derived for emitted contexts). *)
+Theorem C10_chain_eq_partial : forall fx ts p x, chain_ok fx ts p -> fl_wf x ->
+  vequiv (sem (apply_chain fx ts p) x) (sem p x).
+Proof. exact chain_eq. Qed.
+Print Assumptions C10_chain_eq_partial.
+
+Theorem C10_chain_prefix_eq_partial : forall fx ts1 ts2 p x, chain_ok fx (ts1 ++ ts2) p -> fl_wf x ->
+  vequiv (sem (apply_chain fx ts1 p) x) (sem p x).
+Proof. exact chain_prefix_eq. Qed.
+Print Assumptions C10_chain_prefix_eq_partial.
+
+(* ---------------------------------------------------------------- the hypotheses are satisfiable *)
+Theorem C10_example_context_ok :
+  uo_ctx_ok small_float /\ f2f_ctx_ok small_float /\ f2f_nondegenerate small_float /\
+  ctx_wf small_float /\ ctx_wraps small_float = false.
+Proof. exact small_float_ok. Qed.
+Print Assumptions C10_example_context_ok.
+
+Theorem C10_example_rewritten :
+  (exists s, uo_describe fx_asis false small_float = Some s) /\
+  (exists s, uo_describe fx_all true small_float = Some s) /\
+  (exists s, f2f_describe fx_all small_float = Some s) /\
+  us_decl small_float = false.
+Proof. exact small_float_rewritten. Qed.
+Print Assumptions C10_example_rewritten.
+
+Theorem C10_example_early_ok : forall s, uo_describe fx_all true small_float = Some s -> uo_early_ok small_float s.
+Proof. exact small_float_early. Qed.
+Print Assumptions C10_example_early_ok.
+
+Theorem C10_example_chain_ok : chain_ok fx_all [XOverflow; XSpecial] (LRound small_float).
+Proof. exact small_float_chain_ok. Qed.
+Print Assumptions C10_example_chain_ok.
